@@ -1194,10 +1194,10 @@ def main():
             ccs = contain_cases(chk.thorough)
         ccs = [(c, v) for (c, v) in ccs if not (tgt.order == "insertion" and hash_dependent(c, v))]
         ccases = [[2] + flat(c) + flat(v) for (c, v) in ccs]
-        rc = corr_t(chk, tgt, ccases, 6)
+        rc = corr_t(chk, tgt, ccases, 6, fprof)
         ep = contain_eq_pool()
         epc = [pair_case(a, b) for a in ep for b in ep]
-        for rel in (False, True):
+        for rel in fprof:
             prof = "release" if rel else "debug"
             eo = run_lines([tgt.bins[rel]], epc) if ccases else []
             eqt = {}
@@ -1217,8 +1217,8 @@ def main():
         chs = [t for t in chs if not (tgt.order == "insertion" and (hash_dependent(t[1], t[0]) or hash_dependent(t[1], t[2]) or hash_dependent(t[0], t[2])))]
         built = [chain_case(*t) for t in chs]
         chcases = [x[0] for x in built]
-        rch = corr_t(chk, tgt, chcases, 6)
-        for rel in (False, True):
+        rch = corr_t(chk, tgt, chcases, 6, fprof)
+        for rel in fprof:
             prof = "release" if rel else "debug"
             for ci, t in enumerate(chs):
                 for law, msg, kcls in check_chain(t[0], t[1], t[2], built[ci][1], rch["impl"][rel][ci]):
@@ -1227,10 +1227,10 @@ def main():
                                         "how": "./check C07 --replay <this file>"}, kcls)
         if tgt.order == "sorted":
             hist["chains"] += len(chcases)
-        evaluations += len(chcases) * 2
+        evaluations += len(chcases) * len(fprof)
         if tgt.order == "sorted":
             hist["containment"] += len(ccases)
-        evaluations += (len(ccases) + len(epc)) * 2
+        evaluations += (len(ccases) + len(epc)) * len(fprof)
         for what, rr, cs in (("pair", r, pcases), ("filter", rf, fcases), ("containment", rc, ccases), ("chain", rch, chcases)):
             mm = [(i, rel) for i in range(len(cs)) for rel in sorted(rr["impl"]) if rr["impl"][rel][i] != rr["model"][i]]
             disagreements += len(mm)
@@ -1256,7 +1256,7 @@ def main():
     nt_pairs = sum(1 for i in range(n) for j in range(n) if i != j)
     chk.cov["evaluations"] = evaluations
     chk.cov["distinct_nontrivial"] = nt_pairs + len(nontriv)
-    chk.cov["rule"] = ("two targets (default build with BTreeMap maps; `preserve_order` build with IndexMap maps), each in a debug and a release build (quick tier: the filters of the IndexMap target in the release build only). "
+    chk.cov["rule"] = ("two targets (default build with BTreeMap maps; `preserve_order` build with IndexMap maps), each in a debug and a release build (quick tier: filters, containment and chains of the IndexMap target in the release build only). "
                        "pairs: all %d ordered pairs of a %d-value pool (every kind, integer widths at their boundaries, floats by bit pattern incl. +-0/inf/NaN/2^53/2^63/2^64/2^127/2^128, "
                        "strings small/heap/safe, bytes, lists, tuples, sized+unsized lazy iterables, maps in both insertion orders, plain objects, nestings), all laws incl. %d triples per target and profile; "
                        "filters (17): exhaustive lists of length <= %d over 6-value pools x all keyword options (first %d cases) + maps over every ordered choice of <= 3 keys + container shapes + seeded long lists (up to 150 items); "
